@@ -572,3 +572,14 @@ def _all_cand_triplets(interp, args, kwargs, node):
     out = VList(CompBag([Site("spec", [i, j], cond, VTuple([VInt(i), VInt(j), interp.call(val, [a, b], {}, node)]))]), "list")
     out.setlike = True
     return out
+
+
+@S.spec("bucket_pos")
+def _bucket_pos(interp, args, kwargs, node):
+    """Skolem witness: the position of p inside its length bucket (named so that callers can give hints)"""
+    d, p = args
+    f = getattr(d, "bucket_pos_f", None)
+    if f is None:
+        f = interp.ctx.fresh_fun("bucket_pos", INT, INT)
+        d.bucket_pos_f = f
+    return VInt(f(to_int(p)))
